@@ -29,7 +29,9 @@ import sys
 import common
 from common import Ctx, Outcome
 
-RULE = ("systematic: for each (handler revision, subdir, option set) one body of writes (modified, new, unchanged, nested) is "
+RULE = ("prepared transaction objects: histories of create/run steps (make A, make B, enter A, enter B; re-entering; aborts, dry runs, "
+        "failing git commands and idiomatic transactions in between); "
+        "systematic: for each (handler revision, subdir, option set) one body of writes (modified, new, unchanged, nested) is "
         "aborted at every position (before/between/inside writes, open file left behind, nested transaction) and failed at every "
         "git command index until none is left, each followed by a plain commit on the same handler; random: seeded sequences of "
         "1-4 transactions with random options/bodies; distinct = distinct (handler, sequence of (options, body, abort, fault)); "
@@ -53,7 +55,9 @@ MANIFEST = dict(
           "index and files and close the transaction; object-like targets are refused; writing needs a transaction; cleanliness is "
           "an invariant of arbitrary transaction sequences; with push=True and the remote as a second ref store: the remote's refs are unchanged or exactly its "
           "target ref was set to the handler's new HEAD by a successful transaction (for every failing command), a refused push (non-fast-forward, declining remote) "
-          "puts the local branch back and restores the work tree, with push=False the remote is never touched. Tied to /repo by differential runs against real git (command trace, "
+          "puts the local branch back and restores the work tree, with push=False the remote is never touched; making a transaction object and entering it "
+          "are two steps: an object made in any earlier state and entered later behaves like one made at entry, and in every history of making/entering "
+          "objects (any interleaving, re-entering, aborts, faults) a step adds at most one commit whose parent is the HEAD right before that step. Tied to /repo by differential runs against real git (command trace, "
           "refs, commits, index, status) and an independent git-CLI monitor."),
     design_ref="§6 C16",
     note=("Trusted: Lean kernel; git itself (semantics of the plumbing commands and of a non-forced push as modelled); the _git interception shim; "
@@ -64,6 +68,25 @@ MANIFEST = dict(
 GITENV = dict(GIT_AUTHOR_NAME="Init", GIT_AUTHOR_EMAIL="init@example.invalid", GIT_COMMITTER_NAME="Comm",
               GIT_COMMITTER_EMAIL="comm@example.invalid", GIT_CONFIG_GLOBAL="/dev/null", GIT_CONFIG_SYSTEM="/dev/null",
               GIT_TERMINAL_PROMPT="0")
+
+
+def finalize_handler(fh) -> None:
+    """remove the handler's private work tree now (normally done when the handler is collected)"""
+    import weakref
+
+    common.get_private(fh, "_GitFileHandler__fnz", lambda v: isinstance(v, weakref.finalize))()
+
+
+def object_name_regex(fg):
+    """the module-private compiled regex that refuses object-like target refs: by its pinned name, else the only
+    compiled pattern of the module"""
+    r = getattr(fg, "_git_object_name", None)
+    if r is None:
+        c = [v for v in vars(fg).values() if isinstance(v, re.Pattern)]
+        if len(c) != 1:
+            raise common.BindingBroken(f"{fg.__name__}: regex '_git_object_name' not found ({len(c)} candidates)")
+        r = c[0]
+    return r
 
 
 class Abort(Exception):
@@ -275,48 +298,88 @@ def canon_cmd(words: list[str], subdir: str) -> str:
     return w0
 
 
-def run_txn(fh, shim: GitShim, txn: dict) -> dict:
-    """Run one transaction description on the handler; returns what the caller saw."""
+def txn_opts(txn: dict) -> dict:
     opts = dict(push=bool(txn.get("push")))
     for k in ("dry_run", "ignore_empty", "remote_branch", "author_name", "author_email", "commit_msg", "push_options"):
         if txn.get(k) is not None:
             opts[k] = txn[k]
+    return opts
+
+
+def run_body(fh, cm, body, keep: list, pool=()) -> None:
+    """`with cm: body` - the caller catches whatever comes out"""
+    with cm as unused:
+        assert "some_unknown_option" in unused
+        for op in body:
+            k = op[0]
+            if k == "w":
+                with fh.open(op[1], "wb") as f:
+                    f.write(op[2])
+            elif k == "wp":  # abort in the middle of writing a file
+                with fh.open(op[1], "wb") as f:
+                    f.write(op[2])
+                    raise Abort("mid-write")
+            elif k == "open":  # written, never closed
+                f = fh.open(op[1], "wb")
+                f.write(op[2])
+                f.flush()
+                keep.append(f)
+            elif k == "raise":
+                raise Abort("between writes")
+            elif k == "nested":
+                with fh.write_transaction(push=False):
+                    pass
+            elif k == "enter":  # entering a transaction object made earlier (possibly this very one) while one is open
+                with pool[op[1]]:
+                    pass
+
+
+def close_kept(keep: list) -> None:
+    for f in keep:
+        with contextlib.suppress(Exception):
+            common.get_private(f, "_WritableGitFile__file", lambda v: hasattr(v, "write") and hasattr(v, "close")).close()
+
+
+def run_txn(fh, shim: GitShim, txn: dict) -> dict:
+    """Run one transaction description on the handler; returns what the caller saw."""
+    opts = txn_opts(txn)
     shim.reset(txn.get("git_fault"))
     seen = None
     keep = []  # files deliberately left open
     phase = "init"
     try:
         cm = fh.write_transaction(**opts, some_unknown_option=1)
-        phase = "enter"
-        with cm as unused:
-            phase = "body"
-            assert "some_unknown_option" in unused
-            for op in txn["body"]:
-                k = op[0]
-                if k == "w":
-                    with fh.open(op[1], "wb") as f:
-                        f.write(op[2])
-                elif k == "wp":  # abort in the middle of writing a file
-                    with fh.open(op[1], "wb") as f:
-                        f.write(op[2])
-                        raise Abort("mid-write")
-                elif k == "open":  # written, never closed
-                    f = fh.open(op[1], "wb")
-                    f.write(op[2])
-                    f.flush()
-                    keep.append(f)
-                elif k == "raise":
-                    raise Abort("between writes")
-                elif k == "nested":
-                    with fh.write_transaction(push=False):
-                        pass
-            phase = "exit"
+        phase = "body"
+        run_body(fh, cm, txn["body"], keep)
+        phase = "exit"
     except BaseException as e:  # noqa: BLE001
         seen = e
-    for f in keep:
-        with contextlib.suppress(Exception):
-            f._WritableGitFile__file.close()
+    close_kept(keep)
     return dict(seen=seen, phase=phase, calls=list(shim.calls), failed=shim.failed)
+
+
+def create_step(fh, shim: GitShim, txn: dict) -> dict:
+    """`tx = fh.write_transaction(**opts)`: only makes the object"""
+    shim.reset(None)
+    seen, cm = None, None
+    try:
+        cm = fh.write_transaction(**txn_opts(txn), some_unknown_option=1)
+    except BaseException as e:  # noqa: BLE001
+        seen = e
+    return dict(seen=seen, phase="init", calls=list(shim.calls), failed=shim.failed, cm=cm)
+
+
+def run_step(fh, shim: GitShim, cm, step: dict, pool) -> dict:
+    """`with tx: body` on an object made earlier"""
+    shim.reset(step.get("git_fault"))
+    seen = None
+    keep = []
+    try:
+        run_body(fh, cm, step["body"], keep, pool)
+    except BaseException as e:  # noqa: BLE001
+        seen = e
+    close_kept(keep)
+    return dict(seen=seen, phase="body", calls=list(shim.calls), failed=shim.failed)
 
 
 def err_kind(e) -> str | None:
@@ -352,6 +415,8 @@ def monitor_txn(out: Outcome, hdesc: dict, seq_so_far: list, txn: dict, res: dic
         cause = "gitfail:" + f0 + ("-" + res["failed"][1] if res["failed"][0] == "reset" else "")
     elif isinstance(seen, subprocess.CalledProcessError) and "push" in [str(c) for c in (seen.cmd or [])]:
         cause = "push-refused:" + str(hdesc.get("remote"))
+    if txn.get("prepared"):
+        cause += "@prepared"   # a transaction object made earlier (other transactions may have run in between), entered now
     replay = {"handler": hdesc, "sequence": seq_so_far}
 
     def find(cls, msg):
@@ -422,9 +487,17 @@ def monitor_txn(out: Outcome, hdesc: dict, seq_so_far: list, txn: dict, res: dic
     exp_refs[target] = n
     if post["refs"] != exp_refs:
         find("wrong-ref", f"refs after: {diffrefs(pre['refs'], post['refs'])}, expected only {target} -> new commit")
+    # nothing falls off: what was reachable from the refs stays reachable (re-pointing an existing branch that is not
+    # behind the handler's HEAD - the documented use of remote_branch - is the only way a save may drop commits)
+    lost = pre["all"] - post["all"]
+    old_t = pre["refs"].get(target)
+    if lost and (old_t is None or old_t in set(git(repo, "rev-list", pre["head"]).split())):
+        find("commit-lost", f"{len(lost)} commit(s) that were reachable before the save are not reachable any more: {sorted(x[:8] for x in lost)}")
     info = commit_info(repo, n)
     if info["parents"] != [pre["head"]]:
         which = "remote_branch" if txn.get("remote_branch") else "plain"
+        if txn.get("prepared"):
+            which += "-prepared"
         out.find(f"GitFileHandler.transaction|parent-not-head|{which}",
                  f"new commit's parent is {[p[:8] for p in info['parents']]}, the handler was at {pre['head'][:8]}; handler={hdesc} txn={describe(txn)}",
                  replay)
@@ -449,13 +522,26 @@ def monitor_txn(out: Outcome, hdesc: dict, seq_so_far: list, txn: dict, res: dic
         find("worktree-dirty", f"work tree dirty after commit: {post['status']!r}")
 
 
+def monitor_create(out: Outcome, hdesc: dict, seq_so_far: list, txn: dict, res: dict, pre: dict, post: dict, fh) -> None:
+    """`handler.write_transaction(**opts)` only makes an object: nothing in the repository, the work tree or the handler
+    may change, and the only error is the refusal of an object-like target."""
+    replay = {"handler": hdesc, "sequence": seq_so_far}
+    seen = res["seen"]
+    if seen is not None and not isinstance(seen, ValueError):
+        out.find("GitFileHandler.write_transaction|create-raises", f"making a transaction object raised {seen!r}; handler={hdesc} txn={describe(txn)}", replay)
+    changed = [k for k in pre if pre[k] != post.get(k)]
+    if changed or fh._transaction is not None:
+        out.find("GitFileHandler.write_transaction|create-touches-repository",
+                 f"making a transaction object changed {changed or 'the handler (transaction open)'}; handler={hdesc} txn={describe(txn)}", replay)
+
+
 def diffrefs(a, b):
     return {k: (a.get(k, "-")[:8], b.get(k, "-")[:8]) for k in sorted(set(a) | set(b)) if a.get(k) != b.get(k)}
 
 
 def describe(txn: dict) -> str:
     d = {k: v for k, v in txn.items() if k != "body" and v is not None}
-    d["body"] = [[o[0], *[x if isinstance(x, str) else repr(x)[1:] for x in o[1:]]] for o in txn["body"]]
+    d["body"] = [[o[0], *[x if isinstance(x, (str, int)) else repr(x)[1:] for x in o[1:]]] for o in txn["body"]]
     return str(d)
 
 
@@ -513,6 +599,64 @@ def rand_txn(ctx: Ctx, hdesc, current) -> dict:
     elif r < 0.35:
         t["remote_branch"] = rng.choice(OBJECTLIKE)
     return t
+
+
+def prepared_histories(ctx: Ctx, hdesc) -> list[list[dict]]:
+    """Histories in which making a transaction object (`tx = fh.write_transaction(...)`) and entering it (`with tx:`) are
+    separated by other transactions on the same handler: several prepared objects entered one after the other, in
+    either order, one object entered several times, with aborts, dry runs, failing git commands and idiomatic
+    transactions in between, and an object entered while a transaction is open."""
+    rng = ctx.rng
+    old, new, _nodir = rel_paths(hdesc)
+
+    def C(**o):
+        return dict(o, step="create", body=[])
+
+    def R(i, body, fault=None):
+        return dict(step="run", tx=i, body=body, git_fault=fault)
+
+    w0, w1, wn = ("w", old[0], b"A1"), ("w", old[-1], b"B1"), ("w", new[0], b"N1")
+    plain = dict(body=[("w", old[0], b"plain")], commit_msg="idiomatic", git_fault=None)
+    hs = [
+        [C(commit_msg="A"), C(commit_msg="B"), R(0, [w0]), R(1, [w1])],                      # make A, make B, enter A, enter B
+        [C(commit_msg="A"), C(commit_msg="B"), R(1, [w1]), R(0, [w0]), R(1, [wn])],          # the other order, B once more
+        [C(commit_msg="A"), R(0, [w0]), R(0, [("w", old[0], b"A2")]), R(0, [("w", old[0], None)])],   # one object three times (last: unchanged)
+        [C(), C(), R(0, [w0]), R(1, [w1, ("raise",)]), R(1, [w1])],                          # abort of a prepared one after another save
+        [C(), C(dry_run=True), R(0, [w0]), R(1, [w1]), R(0, [wn])],                          # dry run in between
+        [C(commit_msg="A"), plain, R(0, [w1])],                                              # made before an idiomatic save
+        [C(), C(), R(0, [w0]), dict(plain, dry_run=True), R(1, [("wp", old[-1], b"half")]), R(0, [wn])],
+        [C(remote_branch="out"), C(remote_branch="out"), R(0, [w0]), R(1, [w1])],            # both to the same other branch
+        [C(remote_branch="out"), C(), R(0, [w0]), R(1, [w1]), R(0, [wn])],
+        [C(), R(0, [w0, ("enter", 0), w1]), R(0, [w1])],                                     # entering itself while open
+        [C(), C(), R(0, [w0]), R(1, [w1, ("enter", 0)]), R(1, [wn])],
+        [C(ignore_empty=False), C(), R(1, [w0]), R(0, []), R(0, [])],                        # empty commits on top of each other
+        [C(remote_branch=OBJECTLIKE[0]), C(), R(0, [w0])],                                   # a refused creation leaves no object
+    ]
+    for j in range(0, 9):   # every git command of the second prepared transaction, then the first object once more
+        hs.append([C(), C(), R(0, [w0]), R(1, [w1, wn], fault=j), R(0, [("w", old[0], b"after")])])
+    for _ in range(ctx.pick(6, 80)):
+        h, made = [], 0
+        current = dict(INITIAL_FILES)
+        for _ in range(rng.randint(3, 8)):
+            r = rng.random()
+            if made == 0 or (r < 0.3 and made < 3):
+                t = rand_txn(ctx, hdesc, current)
+                h.append(C(**{k: t[k] for k in ("dry_run", "ignore_empty", "remote_branch", "commit_msg", "author_name", "author_email")}))
+                if t["remote_branch"] not in OBJECTLIKE:
+                    made += 1
+            elif r < 0.4:
+                t = rand_txn(ctx, hdesc, current)
+                if t["remote_branch"] in OBJECTLIKE:
+                    t["remote_branch"] = None
+                h.append(t)
+            else:
+                t = rand_txn(ctx, hdesc, current)
+                body = t["body"]
+                if rng.random() < 0.1:
+                    body = body[:1] + [("enter", rng.randrange(made))] + body[1:]
+                h.append(R(rng.randrange(made), body, t["git_fault"]))
+        hs.append(h)
+    return hs
 
 
 def systematic(ctx: Ctx, hdesc) -> list[list[dict]]:
@@ -606,7 +750,9 @@ def to_model_txn(txn: dict, hdesc) -> dict:
 
     body = []
     for o in txn["body"]:
-        if len(o) == 1:
+        if o[0] == "enter":   # `__enter__` of another (or the same) object while a transaction is open: as `nested`, minus `__init__`
+            body.append(["nested"])
+        elif len(o) == 1:
             body.append([o[0]])
         elif o[1].startswith("nodir/"):
             body.append(["wnodir", full(o[1]), []])
@@ -614,9 +760,14 @@ def to_model_txn(txn: dict, hdesc) -> dict:
             body.append(["wign", full(o[1]), list(o[2])])
         else:
             body.append([o[0], full(o[1]), list(o[2])])
-    return {"dry": bool(txn.get("dry_run")), "ignore_empty": txn.get("ignore_empty", True) is not False,
-            "remote_branch": txn.get("remote_branch"), "fault": txn.get("git_fault"), "body": body,
-            "push": bool(txn.get("push")), "remote_declines": hdesc.get("remote") in ("declines", "none")}
+    m = {"dry": bool(txn.get("dry_run")), "ignore_empty": txn.get("ignore_empty", True) is not False,
+         "remote_branch": txn.get("remote_branch"), "fault": txn.get("git_fault"), "body": body,
+         "push": bool(txn.get("push")), "remote_declines": hdesc.get("remote") in ("declines", "none")}
+    if txn.get("step"):
+        m["step"] = txn["step"]
+        if txn["step"] == "run":
+            m["tx"] = txn["tx"]
+    return m
 
 
 class Ids:
@@ -664,9 +815,13 @@ def run_sequence(ctx: Ctx, out: Outcome, base_repo: pathlib.Path, hdesc: dict, s
     init_state = canon_state(repo, wt, ids, bare)
     model_txns, impl_steps, done = [], [], []
     tainted = False
+    pool_heads: list[str] = []
+    pool_cms, pool_opts = [], []   # the transaction objects made so far (a refused creation leaves none), as in the model
     try:
         for txn in seq:
             txn = dict(txn)
+            stepk = txn.get("step")
+            txn.setdefault("body", [])
             # "None" data = the current content of that path (an unchanged write)
             cur = worktree_files(wt)
             sub = hd["subdir"].strip("/")
@@ -678,13 +833,26 @@ def run_sequence(ctx: Ctx, out: Outcome, base_repo: pathlib.Path, hdesc: dict, s
                 body.append(op)
             txn["body"] = body
             pre = observe(repo, wt, bare)
-            res = run_txn(fh, shim, txn)
+            judged = txn
+            if stepk == "create":
+                res = create_step(fh, shim, txn)
+                if res["cm"] is not None:
+                    pool_heads.append(pre["head"])   # harness bookkeeping only (coverage counter)
+                    pool_cms.append(res["cm"])
+                    pool_opts.append({k: v for k, v in txn.items() if k not in ("step", "body", "git_fault")})
+            elif stepk == "run":
+                res = run_step(fh, shim, pool_cms[txn["tx"]], txn, pool_cms)
+                judged = {**pool_opts[txn["tx"]], "body": txn["body"], "git_fault": txn.get("git_fault"), "prepared": True}
+            else:
+                res = run_txn(fh, shim, txn)
             post = observe(repo, wt, bare)
             for sha in shim.commit_shas:
                 ids.map.setdefault(sha, len(ids.map))
             done.append(jsonable(txn))
-            if not tainted:
-                monitor_txn(out, hd, list(done), txn, res, pre, post, repo, wt, fh)
+            if not tainted and stepk == "create":
+                monitor_create(out, hd, list(done), txn, res, pre, post, fh)
+            elif not tainted:
+                monitor_txn(out, hd, list(done), judged, res, pre, post, repo, wt, fh)
             if res["failed"] and (res["failed"][:2] == ["reset", "--hard"] or res["failed"][0] == "clean"):
                 tainted = True  # the roll-back command itself was refused: nothing can have restored the work tree
             # write without a transaction is refused
@@ -707,16 +875,19 @@ def run_sequence(ctx: Ctx, out: Outcome, base_repo: pathlib.Path, hdesc: dict, s
                 st["newcommits"].append([ids.of(info["parents"][0]) if info["parents"] else None,
                                          sorted([p, list(b)] for p, b in tree_of(repo, sha).items())])
             impl_steps.append(st)
-            out.hit("outcome:" + (st["err"] or ("dry" if txn.get("dry_run") else "ok")))
+            out.hit(("prepared:" if stepk == "run" else "create:" if stepk == "create" else "outcome:")
+                    + (st["err"] or ("dry" if judged.get("dry_run") else "ok")))
+            if stepk == "run" and pre["head"] != pool_heads[txn["tx"]]:
+                out.hit("prepared:entered-after-head-moved")
             if res["failed"]:
                 out.hit("gitfail:" + res["failed"][0])
             key = (hd["revision"], hd["subdir"], repr(done))
-            nontrivial = bool(txn["body"]) or txn.get("git_fault") is not None
+            nontrivial = bool(txn["body"]) or txn.get("git_fault") is not None or stepk == "create"
             out.case(key, {"handler": hd, "txn": describe(txn), "err": st["err"], "trace": st["trace"]} if len(out.samples) < 4 and res["failed"] else None, nontrivial)
             out.traces_validated += 1
     finally:
         fh._git = shim.real
-        fh._GitFileHandler__fnz()  # remove the private work tree now (normally done when the handler is collected)
+        finalize_handler(fh)  # remove the private work tree now (normally done when the handler is collected)
     revision_is_hash = bool(re.fullmatch(r"[0-9a-f]{40}", hd["revision_full"]))
     reqs.append({"op": "git.run", "commits": init_commits, "state": init_state, "revision": hd["revision_full"],
                  "revision_is_hash": revision_is_hash, "subdir": hd["subdir"].strip("/"), "txns": model_txns})
@@ -729,13 +900,13 @@ def run_sequence(ctx: Ctx, out: Outcome, base_repo: pathlib.Path, hdesc: dict, s
 
 def jsonable(txn):
     t = dict(txn)
-    t["body"] = [[o[0], *[x if isinstance(x, str) else (None if x is None else list(x)) for x in o[1:]]] for o in txn["body"]]
+    t["body"] = [[o[0], *[x if isinstance(x, (str, int)) else (None if x is None else list(x)) for x in o[1:]]] for o in txn["body"]]
     return t
 
 
 def unjson(txn):
     t = dict(txn)
-    t["body"] = [tuple([o[0], *[x if isinstance(x, str) or x is None else bytes(x) for x in o[1:]]]) for o in txn["body"]]
+    t["body"] = [tuple([o[0], *[x if isinstance(x, (str, int)) or x is None else bytes(x) for x in o[1:]]]) for o in txn["body"]]
     return t
 
 
@@ -837,7 +1008,7 @@ def model_stream(ctx: Ctx, out: Outcome, fg) -> None:
                 find("tree-extra-files", f"commit changes {sorted(diff)}, only the .capella file was modified")
             if post["refs"].get("refs/heads/master") != n or post["status"] != "" or post["head"] != n:
                 find("wrong-ref", "master/HEAD/status wrong after save")
-    fh._GitFileHandler__fnz()
+    finalize_handler(fh)
 
 
 def run(ctx: Ctx) -> Outcome:
@@ -863,6 +1034,26 @@ def run(ctx: Ctx) -> Outcome:
         seq = [rand_txn(ctx, hdesc, current) for _ in range(ctx.rng.randint(1, 4))]
         n += 1
         run_sequence(ctx, out, base, hdesc, seq, n, fg, reqs, obss, metas)
+    # ---- transaction objects made earlier, entered later (other transactions in between)
+    for hi, hdesc in enumerate(HANDLERS if ctx.thorough else HANDLERS[:3]):
+        hists = prepared_histories(ctx, hdesc)
+        if not ctx.thorough and hi > 0:   # quick: the full list on the first handler, a seeded third of it on the others
+            hists = hists[:3] + ctx.rng.sample(hists[3:], k=len(hists) // 3 - 3)
+        for seq in hists:
+            n += 1
+            run_sequence(ctx, out, base, hdesc, seq, n, fg, reqs, obss, metas)
+    for situation in ("insync", "diverged"):   # … with push=True against a remote
+        hd = dict(HANDLERS[0], remote=situation)
+
+        def C(**o):
+            return dict(o, step="create", body=[], push=True)
+
+        for seq in ([C(), C(), dict(step="run", tx=0, body=[("w", "a.txt", b"P1")], git_fault=None),
+                     dict(step="run", tx=1, body=[("w", "b.txt", b"P2")], git_fault=None)],
+                    [C(remote_branch="out"), dict(step="run", tx=0, body=[("w", "a.txt", b"P1")], git_fault=None),
+                     dict(step="run", tx=0, body=[("w", "a.txt", b"P2")], git_fault=None)]):
+            n += 1
+            run_sequence(ctx, out, base, hd, seq, n, fg, reqs, obss, metas)
     # ---- push: a bare repository as `origin`, in four situations
     for seq_h in push_sequences(ctx):
         hdesc, seq = seq_h
@@ -894,7 +1085,7 @@ def run(ctx: Ctx) -> Outcome:
         names += ["refs/heads/" + x for x in ("deadbeef", "dead", "dea", "FETCH_HEAD", "_HEAD", "HEADx", "aHEAD", "x/y_HEAD/z")]
         ans = common.model([{"op": "git.objectlike", "names": names}], driver="Git")[0].get("ok")
         for nm, mv in zip(names, ans or []):
-            iv = bool(fg._git_object_name.search(nm))
+            iv = bool(object_name_regex(fg).search(nm))
             out.case(("objectlike", nm), None, iv)
             if iv != mv:
                 out.disagree("git.objectlike", nm, iv, mv)
